@@ -1000,7 +1000,9 @@ fn lists_die(c: &Cfg, dwo: bool, root: &[(AName, AVal)], die: &[(AName, AVal)], 
         if oracle.is_none() {
             match (&want, &evs) {
                 (Some(Ok(single)), Some(got)) => {
-                    let w: Vec<Ev<Rangeish>> = single.iter().map(|(b, e)| Ev::Item((*b, *e, vec![]))).collect();
+                    // the single range counts only if it is non-empty and below the tombstones (-2, -1)
+                    let m: u128 = 1u128 << (8 * c.enc.address_size as u32);
+                    let w: Vec<Ev<Rangeish>> = single.iter().filter(|(b, e)| b < e && (*b as u128) < m - 2).map(|(b, e)| Ev::Item((*b, *e, vec![]))).collect();
                     if *got != w {
                         oracle = Some(format!("{which}-range-differs expected={}", cooked_text(&w)));
                     }
@@ -1019,11 +1021,9 @@ fn lists_die(c: &Cfg, dwo: bool, root: &[(AName, AVal)], die: &[(AName, AVal)], 
         }
         if oracle.is_none() {
             if let Some(got) = &evs {
-                // third sentence of C08 on the per-entry / per-unit helpers
+                // third sentence of C08 on the per-entry / per-unit helpers (list path and single range)
                 if let Some(w) = check_yield(c, got) {
-                    // without a usable DW_AT_ranges the result is the single low_pc..high_pc range
-                    let single = !attrs.iter().any(|(n, v)| *n == AName::Ranges && matches!(v, AVal::Sec(_) | AVal::Listx(_)));
-                    oracle = Some(format!("{which}-{}{w}", if single { "single-" } else { "" }));
+                    oracle = Some(format!("{which}-{w}"));
                 }
             }
         }
